@@ -801,18 +801,141 @@ func (e *keyExtractor) rangeStmt(v *ast.RangeStmt, sinks map[string]bool) {
 	e.fields = append(e.fields, field)
 }
 
+func newKeyExtractor(n *normaliser) *keyExtractor {
+	return &keyExtractor{
+		n:        n,
+		hashVars: map[string]bool{}, bufVars: map[string]string{}, defs: map[string]string{},
+		u64: map[string]bool{}, optional: map[string]bool{},
+	}
+}
+
+func recvTypeName(fd *ast.FuncDecl) string {
+	if fd.Recv == nil || len(fd.Recv.List) != 1 {
+		return ""
+	}
+
+	t := fd.Recv.List[0].Type
+	if s, ok := t.(*ast.StarExpr); ok {
+		t = s.X
+	}
+
+	if id, ok := t.(*ast.Ident); ok {
+		return id.Name
+	}
+
+	return ""
+}
+
+// A key function that computes nothing itself but hands its inputs to a helper of the same package — its only `return`
+// is the last statement and returns exactly `g(args…)` / `<receiver>.g(args…)` — has the key of that helper: the
+// helper is extracted instead, its receiver and parameters standing for the (normalised) receiver and argument
+// expressions of the call, so that the labels are those of the same writes made in the function itself. Anything else
+// (an early return, a result that is not the call itself, a callee outside the package, a method of another object) is
+// not a delegation; nil is returned and the caller fails closed.
+func (e *keyExtractor) delegation(fd *ast.FuncDecl, files []*ast.File) (*ast.FuncDecl, *normaliser) {
+	returns := 0
+
+	ast.Inspect(fd.Body, func(x ast.Node) bool {
+		switch x.(type) {
+		case *ast.FuncLit:
+			return false
+		case *ast.ReturnStmt:
+			returns++
+		}
+
+		return true
+	})
+
+	if returns != 1 || len(fd.Body.List) == 0 {
+		return nil, nil
+	}
+
+	ret, ok := fd.Body.List[len(fd.Body.List)-1].(*ast.ReturnStmt)
+	if !ok || len(ret.Results) != 1 {
+		return nil, nil
+	}
+
+	call, ok := ret.Results[0].(*ast.CallExpr)
+	if !ok || call.Ellipsis != token.NoPos {
+		return nil, nil
+	}
+
+	var callee *ast.FuncDecl
+
+	inner := &normaliser{names: map[string]string{}}
+
+	switch f := call.Fun.(type) {
+	case *ast.Ident:
+		callee = findInPackage(files, "", f.Name)
+	case *ast.SelectorExpr:
+		self := ""
+		if fd.Recv != nil && len(fd.Recv.List) == 1 && len(fd.Recv.List[0].Names) == 1 {
+			self = fd.Recv.List[0].Names[0].Name
+		}
+
+		id, ok := f.X.(*ast.Ident)
+		if !ok || self == "" || id.Name != self || recvTypeName(fd) == "" {
+			return nil, nil
+		}
+
+		callee = findInPackage(files, recvTypeName(fd), f.Sel.Name)
+		if callee != nil && len(callee.Recv.List[0].Names) == 1 {
+			inner.names[callee.Recv.List[0].Names[0].Name] = e.n.text(f.X)
+		}
+	}
+
+	if callee == nil || callee == fd || callee.Type.Params == nil {
+		return nil, nil
+	}
+
+	var params []string
+
+	for _, f := range callee.Type.Params.List {
+		if _, variadic := f.Type.(*ast.Ellipsis); variadic || len(f.Names) == 0 {
+			return nil, nil
+		}
+
+		for _, name := range f.Names {
+			params = append(params, name.Name)
+		}
+	}
+
+	if len(params) != len(call.Args) {
+		return nil, nil
+	}
+
+	for i, p := range params {
+		if p != "_" {
+			inner.define(p, e.n.text(call.Args[i]))
+		}
+	}
+
+	return callee, inner
+}
+
 func extractKey(root string, t target) []string {
-	fd := findInPackage(packageFiles(root, t.file), t.recv, t.fn)
+	files := packageFiles(root, t.file)
+
+	fd := findInPackage(files, t.recv, t.fn)
 	if fd == nil {
 		fail(nil, "%s: function %s.%s not found", t.file, t.recv, t.fn)
 	}
 
-	e := &keyExtractor{
-		n:        newNormaliser(fd),
-		hashVars: map[string]bool{}, bufVars: map[string]string{}, defs: map[string]string{},
-		u64: map[string]bool{}, optional: map[string]bool{},
-	}
+	e := newKeyExtractor(newNormaliser(fd))
 	e.stmts(fd.Body.List)
+
+	const maxDelegations = 3
+
+	for hops := 0; len(e.hashVars) == 0 && len(e.fields) == 0 && hops < maxDelegations; hops++ {
+		callee, inner := e.delegation(fd, files)
+		if callee == nil {
+			break
+		}
+
+		fd = callee
+		e = newKeyExtractor(inner)
+		e.stmts(fd.Body.List)
+	}
 
 	if len(e.hashVars) != 1 {
 		fail(fd, "expected exactly one sha256.New() in %s.%s, found %d", t.recv, t.fn, len(e.hashVars))
@@ -1444,7 +1567,7 @@ func extractPaths(root string, t target) (hit, miss []string, returns bool) {
 // the calls the obligations talk about: validation, the remote call, storing
 var relevant = map[string]bool{
 	"Validate": true, "verify": true, "eval": true, "Assert": true, "validateJWK": true, "Set": true, "Do": true,
-	"Unmarshal": true, "SendRequest": true, "Sign": true,
+	"Unmarshal": true, "SendRequest": true, "Sign": true, "signAndHash": true,
 }
 
 func leanList(items []string) string {
